@@ -13,6 +13,10 @@
 #include <vector>
 #include "mp/sol-reader2.hpp"
 #include "mp/nl-solver.h"
+extern "C" {
+#include "api/c/nl-solver-c.h"
+#include "api/c/sol-handler-c.h"
+}
 #include "mp/nl-utils.h"
 #include "h_solcommon.h"
 #include "h_solmsg.h"
@@ -204,8 +208,10 @@ static Bytes to_binary(const SolFile &f) {
 // ------------------------------------------------------------------ handlers
 // EASY: not a handler of the harness but the library's own one (SOLHandler_Easy of NLSolver::ReadSolution(), the
 // reader of the "easy" model API), for a loaded model of the declared size whose variables are reordered in the NL file
-enum Mode { ALL, SOME, NONE, SETERR, REFUSE, EASY };
-static const char *MODES[] = {"all", "some", "none", "seterr", "refuse", "easy"};
+// CAPI: a handler written against the C API (api/c/sol-handler-c.h) that reads everything it is offered, called
+// through NLW2_Read2SOLHandler_C (the library wraps it in NLW2_SOLHandler_C_Impl)
+enum Mode { ALL, SOME, NONE, SETERR, REFUSE, EASY, CAPI };
+static const char *MODES[] = {"all", "some", "none", "seterr", "refuse", "easy", "capi"};
 
 struct Rec : mp::SOLHandler {
   mp::NLHeader h_;
@@ -258,6 +264,28 @@ struct Rec : mp::SOLHandler {
 // ------------------------------------------------------------------ one read
 static long NREAD = 0;
 static std::string WD;
+// ---- the C API handler: counts what it was offered / read
+struct CState { int nv, nc; long nopt = -1, ndual = 0, nprimal = 0, nsuf = 0, dual_off = -1, primal_off = -1, sufbad = 0; };
+extern "C" {
+static NLHeader_C c_header(void *u) { NLHeader_C h; memset(&h, 0, sizeof h); h.pi.num_vars = ((CState *)u)->nv; h.pi.num_algebraic_cons = ((CState *)u)->nc; return h; }
+static void c_msg(void *, const char *, int) {}
+static int c_opts(void *u, AMPLOptions_C ao) { ((CState *)u)->nopt = ao.n_options_; return 0; }
+static void c_dual(void *u, int n, void *api) { auto *s = (CState *)u; s->dual_off = n; while (n-- > 0) { NLW2_ReadSolVal(api); ++s->ndual; } }
+static void c_primal(void *u, int n, void *api) { auto *s = (CState *)u; s->primal_off = n; while (n-- > 0) { NLW2_ReadSolVal(api); ++s->nprimal; } }
+static void c_objno(void *, int) {}
+static void c_code(void *, int) {}
+static void c_isuf(void *u, NLW2_SuffixInfo_C si, void *api) {
+  auto *s = (CState *)u; ++s->nsuf; int i, v;
+  int nmax[4] = {s->nv, s->nc, 1 << 20, 1};
+  while (NLW2_IntSuffixNNZ(api)) { NLW2_ReadIntSuffixEntry(api, &i, &v); if (i < 0 || i >= nmax[si.kind_ & 3]) { NLW2_ReportIntSuffixError(api, "bad suffix element index"); ++s->sufbad; return; } }
+}
+static void c_dsuf(void *u, NLW2_SuffixInfo_C si, void *api) {
+  auto *s = (CState *)u; ++s->nsuf; int i; double v;
+  int nmax[4] = {s->nv, s->nc, 1 << 20, 1};
+  while (NLW2_DblSuffixNNZ(api)) { NLW2_ReadDblSuffixEntry(api, &i, &v); if (i < 0 || i >= nmax[si.kind_ & 3]) { NLW2_ReportDblSuffixError(api, "bad suffix element index"); ++s->sufbad; return; } }
+}
+}
+
 static void one_read(const std::string &bytes, const SolFile &f, const char *fmt, const std::string &mut, const std::string &cls,
                      int dnv, int dnc, const char *dcls, Mode mode, int base) {
   std::string path = WD + "/r.sol";
@@ -278,7 +306,26 @@ static void one_read(const std::string &bytes, const SolFile &f, const char *fmt
        ",\"cls\":" + jstr(cls) + ",\"nv\":" + std::to_string(dnv) + ",\"nc\":" + std::to_string(dnc) + ",\"decl\":\"" + dcls + "\",\"mode\":\"" + MODES[mode] +
        "\",\"valid\":" + (cls == "valid" ? "true" : "false") + ",\"size\":" + std::to_string(bytes.size()) + ",\"avail\":" + (std::string(fmt) == "binary" && std::string(dcls) == "equal" ? G_AVAIL : std::string("{\"dual\":-1,\"primal\":-1,\"suf\":[]}")) + ",\"hdrs\":" + hdrs + "}");
   ++NREAD;
-  int rc = mode == EASY ? run_isolated([&] {
+  int rc = mode == CAPI ? run_isolated([&] {
+    CState st; st.nv = dnv; st.nc = dnc;
+    NLW2_NLUtils_C ut = NLW2_MakeNLUtils_C_Default();
+    NLW2_NLSolver_C sv = NLW2_MakeNLSolver_C(&ut);
+    std::string stub = WD + "/capi";
+    NLW2_SetFileStub_C(&sv, stub.c_str());
+    rename(path.c_str(), (stub + ".sol").c_str());
+    NLW2_SOLHandler_C h = NLW2_MakeSOLHandler_C_Default();
+    h.p_user_data_ = &st; h.Header = c_header; h.OnSolveMessage = c_msg; h.OnAMPLOptions = c_opts; h.OnDualSolution = c_dual;
+    h.OnPrimalSolution = c_primal; h.OnObjno = c_objno; h.OnSolveCode = c_code; h.OnIntSuffix = c_isuf; h.OnDblSuffix = c_dsuf;
+    int ok = NLW2_Read2SOLHandler_C(&sv, &h);
+    const char *em = NLW2_GetErrorMessage_C(&sv);
+    emit("{\"e\":\"CApi\",\"ok\":" + std::string(ok ? "true" : "false") + ",\"nopt\":" + std::to_string(st.nopt) + ",\"dualoff\":" + std::to_string(st.dual_off) +
+         ",\"primaloff\":" + std::to_string(st.primal_off) + ",\"hasmsg\":" + (em && *em ? "true" : "false") + "}");
+    rename((stub + ".sol").c_str(), path.c_str());
+    NLW2_DestroySOLHandler_C_Default(&h);
+    NLW2_DestroyNLSolver_C(&sv);
+    NLW2_DestroyNLUtils_C_Default(&ut);
+  }, WD + "/stderr.txt", 10)
+  : mode == EASY ? run_isolated([&] {
     int n = dnv, nr = dnc;
     std::vector<double> lb(n, 0.0), ub(n, 10.0), rlb(nr, -1e3), rub(nr, 1e3), c(n, 1.0), av(nr, 1.0);
     std::vector<int> ty(n);
@@ -349,7 +396,7 @@ int main(int argc, char **argv) {
     for (int fmt = 1; fmt <= 2; ++fmt) {
       Bytes b = fmt == 1 ? to_text(f0) : to_binary(f0);
       for (auto &d : decls)
-        for (int m = ALL; m <= EASY; ++m)
+        for (int m = ALL; m <= CAPI; ++m)
           if (m != EASY || d.nv > 0)
             one_read(b.b, f0, fmt == 1 ? "text" : "binary", "none", "valid", d.nv, d.nc, d.cls, (Mode)m, (int)k);
     }
@@ -407,6 +454,11 @@ int main(int argc, char **argv) {
       if (easy_ok && (thorough || rng() % 3 == 0)) {
         const D &d = decls[rng() % 2 ? 2 : 3];
         one_read(b.b, m.f, fmt == 1 ? "text" : "binary", label, cls, d.nv, d.nc, d.cls, EASY, (int)k);
+      }
+      // a handler written against the C API
+      if (thorough || rng() % 3 == 0) {
+        D d = pick_decl();
+        one_read(b.b, m.f, fmt == 1 ? "text" : "binary", label, cls, d.nv, d.nc, d.cls, CAPI, (int)k);
       }
     };
     for (auto &m : muts)
